@@ -255,6 +255,10 @@ func runC05(c *Ctx) {
 	checkPortsOfOsFollowTheOriginal(c, "R17")
 	// R18 (= C16.R23): like os.ReadDir, a listing that fails reports the failure; only io.EOF ends it quietly
 	checkOnlyEOFEndsListing(c, "R18")
+	// R19 (= C17.R8): times are unsigned 32-bit instants (2040 is not 1903); R20 (= C16.R2): READDIR runs behind the
+	// MKDIR/REMOVE/RENAME that precede it
+	checkTimesAreUnsigned32(c, "R19")
+	c.withOnly("R2", "R20", func() { runC16(c) })
 
 	// ---------- R1 request -> os table ----------
 	top, specific := requestTypes(c, "R1")
